@@ -280,6 +280,19 @@ def other_observations(tier):
         o = route_obs_extra(vec, extra)
         o['_what'] = f'svg via data_uri with {extra}'
         obs.append(o)
+    # scale given as int, integral float and fractional float through every route of the kinds that accept a float
+    for sc in (2, 2.0, 10.0, 1.0, 2.5, 0.5):
+        for kind, routes in (('svg', (('path', []), ('stream', []), ('svgz_file', []), ('svgz_stream', []), ('inline', ['xmldecl_false', 'svgns_false', 'nl_false']),
+                                     ('data_uri', ['xmldecl_false', 'nl_false']))),
+                             ('png', (('path', []), ('stream', []), ('data_uri', []))), ('eps', (('path', []), ('stream', []))),
+                             ('pdf', (('path', []), ('stream', []))), ('tex', (('path', []), ('stream', []))), ('pbm', (('path', []), ('stream', [])))):
+            if sc < 1 and kind in ('png', 'pbm'):
+                continue
+            for route, forced in routes:
+                vec = {'kind': kind, 'route': route, 'opts': [], 'given': [], 'forced': forced}
+                o = route_obs_extra(vec, {'scale': sc})
+                o['_what'] = f'{kind} via {route} with scale={sc!r}'
+                obs.append(o)
     # encoding=None (UTF-8 document without an encoding declaration, tests/test_svg.py::test_encoding_none) through every SVG route
     for route, forced in (('path', []), ('stream', []), ('svgz_file', []), ('svgz_stream', []), ('inline', ['xmldecl_false', 'svgns_false', 'nl_false']),
                           ('data_uri', ['xmldecl_false', 'nl_false']), ('data_uri', ['nl_false'])):
